@@ -802,11 +802,16 @@ func (h *H) provoke(e ecs.Entity) {
 	if !h.w.IsLocked() || !h.w.Alive(e) {
 		return
 	}
-	for _, rc := range h.comps {
+	names := make([]int, 0, len(h.comps))
+	for n := range h.comps {
+		names = append(names, n)
+	}
+	sort.Ints(names)
+	for _, n := range names {
+		rc := h.comps[n]
 		if rc.info.kind != "rel" {
 			continue
 		}
-		rc := rc
 		func() {
 			defer func() { _ = recover() }()
 			rc.m.SetRelation(e, e)
